@@ -32,6 +32,7 @@ EXTRA = {
     'method': None,            # a class K with a method m + a function named K_m
     'latecomment': None,       # a second doctest with a later comment that starts like a force-disable marker
     'afterword': None,         # a second, freeform doctest under prose that ends in the word "subscript"
+    'dotswant': None,          # a second doctest whose want starts with the bare wildcard line and goes on with '... tail'
 }
 
 
@@ -114,6 +115,9 @@ class DumpSpec(c01.ProgSpec):
         elif extra == 'afterword':
             src += ('\n\ndef g():\n    """\n    The index is written as a subscript\n\n    >>> zz = 1\n    >>> print(zz)\n    1\n    """\n')
             n_enabled = 2
+        elif extra == 'dotswant':
+            src += ("\n\ndef g():\n    '''\n    Example:\n        >>> print('...'); print('... tail')\n        ...\n        ... tail\n    '''\n")
+            n_enabled = 2
         style = 'auto' if extra == 'afterword' else 'google'
         case = {'module': src}
         atoms = []
@@ -147,11 +151,16 @@ class DumpSpec(c01.ProgSpec):
             atoms.append({'sig': 'dump:function-count', 'msg': '%d functions (%d top-level nodes) for %d enabled doctest(s)' % (
                 len(fdefs), len(tree.body), n_enabled)})
             return {'atoms': atoms, 'outcome': 'count', 'case': case, 'nontrivial': nontrivial}
-        if not any(isinstance(n, (ast.Await, ast.AsyncWith, ast.AsyncFor)) and not _inside_async(tree, n) for n in ast.walk(tree)):
-            try:
-                compile(out, '<dump>', 'exec')
-            except SyntaxError as ex:
-                atoms.append({'sig': 'dump:does-not-compile', 'msg': repr(ex)})
+        try:
+            compile(out, '<dump>', 'exec')
+        except SyntaxError as ex:
+            top_await = any(isinstance(n, (ast.Await, ast.AsyncWith, ast.AsyncFor)) and not _inside_async(tree, n) for n in ast.walk(tree))
+            # known finding F53: a doctest using top-level await is dumped into a plain def
+            atoms.append({'sig': 'dump:does-not-compile' + (':top-level-await-in-plain-def' if top_await else ''), 'msg': '%r\n%s' % (ex, out)})
+        if extra == 'dotswant':
+            glines = [l.strip() for l in out.split('\n')[fdefs[1].lineno:]]
+            if '# ... tail' not in glines or '# ...' not in glines or 'tail' in glines:
+                atoms.append({'sig': 'dump:want-starting-with-dots-not-preserved', 'msg': out})
         # body of the first function
         f0 = fdefs[0]
         lines = out.split('\n')
